@@ -15,7 +15,7 @@ func FeatureEnabled(mods []*Mod, on map[string]bool) map[string]bool {
 	memo := map[string]bool{}
 	var eval func(m *Mod, ref string, depth int) bool
 	eval = func(m *Mod, ref string, depth int) bool {
-		fm, f := resolveFeature(byName, m, ref)
+		fm, dm, f := resolveFeatureDef(byName, m, ref)
 		if f == nil || depth > 50 {
 			return false
 		}
@@ -25,7 +25,7 @@ func FeatureEnabled(mods []*Mod, on map[string]bool) map[string]bool {
 		}
 		v := on[key]
 		for _, dep := range f.IfFeatures {
-			if !eval(fm, dep, depth+1) {
+			if !eval(dm, dep, depth+1) {
 				v = false
 			}
 		}
@@ -41,34 +41,27 @@ func FeatureEnabled(mods []*Mod, on map[string]bool) map[string]bool {
 }
 
 func resolveFeature(byName map[string]*Mod, m *Mod, ref string) (*Mod, *Feature) {
+	km, _, f := resolveFeatureDef(byName, m, ref)
+	return km, f
+}
+
+// resolveFeatureDef resolves a feature reference written in m: the module the feature belongs to (whose name keys
+// the feature), the (sub)module that textually contains it (whose imports resolve its own if-features), the feature.
+func resolveFeatureDef(byName map[string]*Mod, m *Mod, ref string) (*Mod, *Mod, *Feature) {
 	pfx, name := localName(ref)
-	fm := m
-	if pfx != "" && pfx != m.Prefix {
-		fm = nil
-		for _, i := range m.Imports {
-			if i.Prefix == pfx {
-				fm = byName[i.Mod]
-			}
-		}
-	}
+	fm := modByPrefix(byName, m, pfx)
 	if fm == nil {
-		return nil, nil
+		return nil, nil, nil
 	}
-	if fm.BelongsTo != "" {
-		if owner := byName[fm.BelongsTo]; owner != nil {
-			for _, f := range owner.Features {
-				if f.Name == name {
-					return owner, f
-				}
+	fam := family(byName, fm)
+	for _, x := range fam {
+		for _, f := range x.Features {
+			if f.Name == name {
+				return fam[0], x, f
 			}
 		}
 	}
-	for _, f := range fm.Features {
-		if f.Name == name {
-			return fm, f
-		}
-	}
-	return nil, nil
+	return nil, nil, nil
 }
 
 // PruneFeatures returns a copy in which every node whose if-feature condition
